@@ -254,6 +254,13 @@ func fieldInfluencesResult(fi *FuncInfo, root types.Object, qtype, field string)
 				if o := info.Uses[x]; o != nil && tainted[o] {
 					found = true
 				}
+			case *ast.CallExpr:
+				// the whole operand handed to a call carries every field
+				for _, a := range x.Args {
+					if id, ok := ast.Unparen(a).(*ast.Ident); ok && info.Uses[id] == root {
+						found = true
+					}
+				}
 			}
 			return true
 		})
